@@ -111,6 +111,8 @@ pub fn gen_for(prop: &str, seed: u64, _tier: &str) -> Plan {
         Engine::Core if prop == "C04" && seed % 16 == 2 => crate::templates::gen_plan(seed),
         // C07: programs whose expert node writes a variable from its observability callback
         Engine::Core if prop == "C07" && seed % 16 == 3 => crate::expert::gen_plan(seed),
+        // C20: a memoised constructor keyed by nodes chained on one keyed by numbers (typed shape)
+        Engine::Core if prop == "C20" && seed % 16 == 5 => crate::templates::gen_plan_shape(seed, Some(crate::templates::SHAPE_MEMO_CHAIN)),
         Engine::Core => crate::gen::gen_plan(seed, &spec::profile(prop)),
         Engine::Expert | Engine::Map | Engine::Limits => crate::engines::gen_plan(prop, seed),
     };
